@@ -46,6 +46,9 @@ type RWMutex struct {
 }
 
 func (m *RWMutex) Lock() {
+	// announcing a waiting writer shuts new readers out (sync.RWMutex does the same): that is an operation on the
+	// mutex of its own and needs its own scheduling point, or "reader slips in before the writer announces" is lost
+	vsched.Point("RWMutex.Lock (announce)")
 	m.writersWaiting++
 	vsched.Block("RWMutex.Lock", func() bool { return !m.writer && m.readers == 0 })
 	m.writersWaiting--
